@@ -184,6 +184,19 @@ func NewPipeFromBufferPool(pool *sync.Pool) *Pipe {
 	return p
 }
 
+// Discard drops the buffered, unread bytes and returns how many there were.
+// Subsequent Reads see only the pipe's error.
+func (p *Pipe) Discard() int {
+	p.mu.Lock()
+	defer p.mu.Unlock()
+	if p.b == nil {
+		return 0
+	}
+	n := p.b.Len()
+	p.b.Reset()
+	return n
+}
+
 // Release() releases underlying fixed buffer
 func (p *Pipe) Release(pool *sync.Pool) {
 	p.mu.Lock()
